@@ -255,6 +255,77 @@ fn check_triple(c: &TripleCase, st: &mut Stats) -> Result<(), Failure> {
     Ok(())
 }
 
+/// three registrations of one method spread over an exact route `/p` and the wildcard route
+/// `/p/{rest:.*}` below it (which also matches the request `/p`): each registration is refused iff
+/// its range shares a version with an earlier *accepted* one on either route
+#[derive(Clone, Debug, Serialize, Deserialize)]
+pub struct ShapeTripleCase {
+    /// per registration: is it the wildcard route?
+    wild: [bool; 3],
+    ranges: [MRange; 3],
+}
+
+pub fn check_shape_triple(c: &ShapeTripleCase, st: &mut Stats) -> Result<(), Failure> {
+    let mut api: ApiDescription<DynCtx> = ApiDescription::new();
+    let mut accepted: Vec<usize> = vec![];
+    let show = |i: usize| format!("{} [{}]", if c.wild[i] { "PUT /p/{rest:.*}" } else { "PUT /p" }, c.ranges[i].text());
+    for i in 0..3 {
+        let mut e = ep(&format!("op{}", i), "PUT", &c.ranges[i]);
+        if c.wild[i] {
+            e.segs = vec![Seg::Lit("p".into()), Seg::Wild("rest".into())];
+        }
+        let spec = crate::dynapi::default_path_spec(&e);
+        let o = try_register(&mut api, &e, &spec, None, &[]);
+        let clash: Vec<usize> = accepted.iter().copied().filter(|j| c.ranges[*j].overlaps(&c.ranges[i])).collect();
+        st.eval();
+        if i == 2 {
+            let mixed = accepted.iter().any(|j| c.wild[*j] != c.wild[i]);
+            st.count(match (clash.is_empty(), mixed) {
+                (true, _) => "shape-triple:third-disjoint",
+                (false, true) => "shape-triple:third-overlaps-across-routes",
+                (false, false) => "shape-triple:third-overlaps-same-route",
+            });
+            if !clash.is_empty() && clash.iter().all(|j| c.wild[*j] != c.wild[i]) {
+                st.nontrivial(hash_of(&format!("{:?}", c)));
+            }
+        }
+        ensure!(
+            o.accepted() == clash.is_empty(),
+            format!("conflict-{}:route-shapes", if clash.is_empty() { "spurious" } else { "missed" }),
+            "after accepting [{}], registration #{} {} shares a version with {:?} (both routes serve the request /p): registration said {:?}",
+            accepted.iter().map(|j| show(*j)).collect::<Vec<_>>().join("; "),
+            i + 1,
+            show(i),
+            clash.iter().map(|j| show(*j)).collect::<Vec<_>>(),
+            o
+        );
+        if o.accepted() {
+            accepted.push(i);
+        }
+    }
+    st.sample(|| json!({"registrations": (0..3).map(show).collect::<Vec<_>>(), "accepted": accepted}));
+    Ok(())
+}
+
+pub fn shape_triple_cases() -> Vec<ShapeTripleCase> {
+    let p = pool();
+    let sub: Vec<MVer> = vec![p[0].clone(), p[2].clone(), p[4].clone(), p[6].clone()];
+    let rs = all_ranges(&sub);
+    let mut out = vec![];
+    for w in 1..7u8 {
+        // every assignment of the three registrations to the two routes except all-exact / all-wild... keep those too for the wild route
+        let wild = [w & 1 != 0, w & 2 != 0, w & 4 != 0];
+        for a in &rs {
+            for b in &rs {
+                for c3 in &rs {
+                    out.push(ShapeTripleCase { wild, ranges: [a.clone(), b.clone(), c3.clone()] });
+                }
+            }
+        }
+    }
+    out
+}
+
 #[derive(Clone, Debug, Serialize, Deserialize)]
 struct CtorCase {
     a: MVer,
@@ -565,7 +636,7 @@ fn check_header(lives: &[Live], rt: &tokio::runtime::Runtime, c: &HeaderCase, st
 }
 
 pub fn run(ctx: &mut Ctx) {
-    ctx.rule = "membership_shapes: every pair of disjoint ranges on an exact route + the wildcard route below it (request = the exact path, with and without trailing slash) or on one route, both registration orders, 9 probes each; membership/conflict: complete enumeration of all 43 ranges over a 7-version ordered pool (with pre-releases) x 9 probes and all 1849 ordered pairs, plus random semver triples; non-trivial = probe on a range bound or with a pre-release, pair sharing a bound or containing a one-version range; header cases against four servers (a ladder of ranges partitioning the version line; only unrestricted endpoints; an unrestricted endpoint plus a restricted one elsewhere; the ladder with a pre-release as newest supported version): non-trivial = pool/pre-release versions and every refusal class instance (distinct by value)".into();
+    ctx.rule = "membership_shapes: every pair of disjoint ranges on an exact route + the wildcard route below it (request = the exact path, with and without trailing slash) or on one route, both registration orders, 9 probes each; conflict_triples_route_shapes: every sequence of three registrations of one method over the exact route and the wildcard route below it x all ranges over a 4-version sub-pool (each refused iff it shares a version with an earlier accepted one on either route); membership/conflict: complete enumeration of all 43 ranges over a 7-version ordered pool (with pre-releases) x 9 probes and all 1849 ordered pairs, plus random semver triples; non-trivial = probe on a range bound or with a pre-release, pair sharing a bound or containing a one-version range; header cases against four servers (a ladder of ranges partitioning the version line; only unrestricted endpoints; an unrestricted endpoint plus a restricted one elsewhere; the ladder with a pre-release as newest supported version): non-trivial = pool/pre-release versions and every refusal class instance (distinct by value)".into();
     ctx.assume("build metadata is never generated (precedence ignores it and the macro rejects it)");
     ctx.assume("the least semver version 0.0.0-0 is not used as an Until bound (empty range)");
 
@@ -619,6 +690,7 @@ pub fn run(ctx: &mut Ctx) {
         }
     }
     ctx.enumerate("conflict_triples", triples, true, check_triple);
+    ctx.enumerate("conflict_triples_route_shapes", shape_triple_cases(), true, check_shape_triple);
 
     let mut ctor = vec![];
     for a in &probes {
